@@ -98,8 +98,12 @@ impl<'a, 'b, Output: BinaryOutput> AdtSerializer<'a, 'b, Output> {
                 &self.metadata.evolution_steps,
                 &self.metadata.removed_fields,
             )?;
+            #[cfg(desert_verif)]
+            crate::verif::emit("ahdr", 0, 0, 0, 0, "");
             self.write_ordered_chunks()
         } else {
+            #[cfg(desert_verif)]
+            crate::verif::emit("aend", 0, 0, 0, 0, "");
             Ok(())
         }
     }
@@ -182,6 +186,8 @@ impl<'a, 'b, Output: BinaryOutput> AdtSerializer<'a, 'b, Output> {
         for buffer in &self.buffers {
             self.context.write_bytes(buffer.as_ref().unwrap());
         }
+        #[cfg(desert_verif)]
+        crate::verif::emit("aend", 1, 0, 0, 0, "");
         Ok(())
     }
 }
